@@ -78,6 +78,26 @@ def gen(rng, tier):
         if i % 3 == 0 and n >= 20:
             raw = b'1144' + raw[4:]
         cases.append({'kind': 'msg', 'cfg': None, 'codec': rng.choice(['latin_1', 'cp500', 'ascii']), 'hex': i % 5 == 0, 'bytes': raw.hex(), 'mut': 'random'})
+    # the merchant field is split by a regular expression, and a regular expression can take exponential time on an input
+    # it does not match: long runs and near misses of the documented shape (one character class repeated, the separators
+    # in all counts, the tail one short or one long), at the lengths an LLVAR element allows
+    for codec in ('latin_1', 'cp500'):
+        runs = ['A', ' ', '\\', '1', 'A ', ' A', 'AB', 'A1 ', 'a\\', '  \\', '\t', 'A\\ ']
+        vals = [(u * 99)[:n] for u in runs for n in (28, 45, 99)]
+        for nsep in (1, 2, 3, 4):
+            for w in (8, 22, 30):
+                parts = [('W' * w + ' ' + 'X' * w)[:w] for _ in range(nsep)]
+                body = '\\'.join(parts) + '\\'
+                for tail in ('', '1234567890', '1234567890ABCAU', '1234567890ABCAUS', '1234567890ABC AU', '1234567890ABCAUSX'):
+                    vals.append((body + tail)[:99])
+        if tier == 'quick':
+            vals = rng.sample(vals, 60)
+        for v in vals:
+            try:
+                b = iu.ref_wire({'MTI': '1240', 'DE43': v}, pk, codec, False)
+            except (iu.Refused, UnicodeEncodeError):
+                continue
+            cases.append({'kind': 'msg', 'cfg': None, 'codec': codec, 'hex': False, 'bytes': b.hex(), 'mut': 'de43-stress'})
     # the same raw text under several configurations after earlier calls in the same process, and damaged versions of it
     for cc in iu.collision_cases(rng, 40 if tier == 'quick' else 1000):
         try:
